@@ -134,13 +134,59 @@ def nested_mapback(text: str, s1: int, e1: int, n1: str, s3: int, e3: int, n3: s
           and r2.map_back_offset(ps) == src[0])
 
 
+import itertools as _it
+ETL = TL - 1                       # enumerated texts are one character shorter than the symbolic ones
+_TEXTS = ["".join(t) for n in range(ETL + 1) for t in _it.product(ALPHA, repeat=n)]
+_REPL = ["".join(t) for n in range(NL + 1) for t in _it.product("a$", repeat=n)]
+_OFF = list(range(ETL + 1))
+
+
+def combiner_case(text, s1, e1, n1, lit, t2, ps, pe):
+  return combiner_mapback(lit, text, s1, e1, n1, t2, ps, pe)
+
+
+def nested_case(text, s1, e1, n1, s3, e3, n3, ps, pe):
+  return nested_mapback(text, s1, e1, n1, s3, e3, n3, ps, pe)
+
+
+def _prune_combiner(kw):
+  if "e1" in kw and not (kw["s1"] <= kw["e1"] <= len(kw["text"])):
+    return False
+  if "pe" in kw:
+    full = len(kw["lit"]) + len(kw["text"]) - (kw["e1"] - kw["s1"]) + len(kw["n1"]) + len(kw["t2"])
+    return kw["ps"] < kw["pe"] <= full
+  return True
+
+
+def _prune_nested(kw):
+  if "e1" in kw and not (kw["s1"] <= kw["e1"] <= len(kw["text"])):
+    return False
+  if "e3" in kw:
+    mid = len(kw["text"]) - (kw["e1"] - kw["s1"]) + len(kw["n1"])
+    if not (kw["s3"] <= kw["e3"] <= mid):
+      return False
+    if "pe" in kw:
+      return kw["ps"] < kw["pe"] <= mid - (kw["e3"] - kw["s3"]) + len(kw["n3"])
+  return True
+
+
+PRUNE = {"combiner_case": _prune_combiner, "nested_case": _prune_nested}
+
 OBLIGATIONS = [
-  {"func": "replacer_text", "cond_timeout": 200, "desc": "Replacer output == direct application of two non-overlapping patches"},
-  {"func": "replacer_mapback", "cond_timeout": 300, "desc": "patch inside unchanged output text maps back to the same source characters"},
-  {"func": "combiner_mapback", "cond_timeout": 300, "desc": "Combiner routes a patch to its part, refuses spanning patches, None for literals"},
-  {"func": "nested_mapback", "cond_timeout": 300, "desc": "Replacer over Replacer: output, map_back_patch and map_back_offset through both levels"},
+  {"func": "replacer_text", "cond_timeout": 100, "desc": "Replacer output == direct application of two non-overlapping patches (symbolic text, patches, offsets)"},
+  {"func": "replacer_mapback", "cond_timeout": 100, "desc": "patch inside unchanged output text maps back to the same source characters (symbolic)"},
+  {"func": "combiner_mapback", "cond_timeout": 100, "desc": "Combiner routes a patch to its part, refuses spanning patches, None for literals (symbolic)"},
+  {"func": "nested_mapback", "cond_timeout": 100, "desc": "Replacer over Replacer (symbolic)"},
 ]
-BOUNDS = {"text": "len <= %d over alphabet 'ab$'" % TL, "replacements": "len <= %d" % NL, "offsets": "all (symbolic ints)",
+ENUM = [
+  {"func": "combiner_case", "domains": {"text": _TEXTS, "s1": _OFF, "e1": _OFF, "n1": _REPL, "lit": ["", "a"], "t2": ["", "b", "ab"],
+                                        "ps": list(range(ETL + 4)), "pe": list(range(1, ETL + 5))}, "shard_by": "text", "max_s": 200,
+   "desc": "Combiner[literal, Replacer(one patch), Text]: every text (len <= %d), patch and output patch of the bounded space" % ETL},
+  {"func": "nested_case", "domains": {"text": _TEXTS, "s1": _OFF, "e1": _OFF, "n1": _REPL, "s3": list(range(ETL + 2)), "e3": list(range(ETL + 2)), "n3": _REPL,
+                                      "ps": list(range(ETL + 2)), "pe": list(range(1, ETL + 3))}, "shard_by": "text", "max_s": 200,
+   "desc": "Replacer over Replacer: output, map_back_patch and map_back_offset through both levels, texts of len <= %d" % ETL},
+]
+BOUNDS = {"text": "len <= %d over alphabet 'ab$' (symbolic), <= %d (enumerated)" % (TL, ETL), "replacements": "len <= %d" % NL, "offsets": "all (symbolic ints)",
           "compositions": "Replacer(2 patches); Combiner[literal, Replacer, Text]; Replacer(Replacer)"}
 FILES = ["sandbox/grist/textbuilder.py"]
 ASSUMPTIONS = ["a patch that ends exactly where a pure deletion begins may map its end to either side of the deleted source text "
